@@ -198,6 +198,13 @@ fn build_pool<'a, B: Robdd<'a>>(b: &'a B, cfg: &HistCfg, ops: &[Op]) -> Vec<BddP
     }
     let r = exec_history_collect(&mut dummy, cfg, b, ops);
     pool.extend(r);
+    // smoothed copies of the last results (nodes with identical children) share the pool
+    let n = cfg.n0;
+    let k = pool.len();
+    for i in 1..=usize::min(2, k) {
+        let p = pool[k - i];
+        pool.push(b.smooth_(p, n));
+    }
     pool
 }
 
@@ -222,7 +229,7 @@ fn bdd_case(ctx: &mut Ctx, rng: &mut Rng) {
     let ops = gen_history(&cfg, rng);
     let nq = rng.range(30, 70);
     // queries: deliberately f, !f, a shared child and a parent in sequence
-    let plen = initial_pool_len(n) + ops.len();
+    let plen = initial_pool_len(n) + ops.len() + usize::min(2, initial_pool_len(n) + ops.len());
     let mut queries: Vec<(usize, bool, Q)> = Vec::new();
     let mut last = plen - 1;
     for _ in 0..nq {
@@ -409,7 +416,7 @@ fn sdd_case(ctx: &mut Ctx, rng: &mut Rng) {
 
 // ------------------------------------------------------------------ decision-DNNF
 
-fn ddnnf_answer<'a>(bb: &'a StandardDecisionNNFBuilder<'a>, p: BddPtr<'a>, n: usize, q: &Q) -> String {
+fn ddnnf_answer<'a, B: DecisionNNFBuilder<'a>>(bb: &'a B, p: BddPtr<'a>, n: usize, q: &Q) -> String {
     if let Some(a) = generic_answer(p, n, q) {
         return a;
     }
@@ -423,49 +430,82 @@ fn ddnnf_answer<'a>(bb: &'a StandardDecisionNNFBuilder<'a>, p: BddPtr<'a>, n: us
 }
 
 fn ddnnf_case(ctx: &mut Ctx, rng: &mut Rng) {
-    let mv = rng.range(2, 7);
-    let st = CnfStyle {
-        max_vars: mv,
-        max_clauses: rng.range(1, mv + 3),
-        max_width: rng.range(1, 4),
-        allow_empty_clause: false,
-        allow_empty_cnf: false,
-        allow_taut: false,
-        allow_dup: false,
-    };
-    let cl = random_clauses(&st, rng);
-    let n = clauses_num_vars(&cl);
-    if n == 0 {
-        return;
+    // two CNFs over the same variables, compiled in ONE builder (shared nodes)
+    let n = rng.range(2, 7);
+    let mut cls: Vec<Clauses> = Vec::new();
+    for _ in 0..2 {
+        let st = CnfStyle {
+            max_vars: n,
+            max_clauses: rng.range(1, n + 3),
+            max_width: rng.range(1, 4),
+            allow_empty_clause: false,
+            allow_empty_cnf: false,
+            allow_taut: false,
+            allow_dup: false,
+        };
+        let mut cl = random_clauses(&st, rng);
+        cl.retain(|c| !c.is_empty());
+        cl.push(vec![(n - 1, rng.bool()), (rng.below(n), rng.bool())]);
+        cls.push(cl);
     }
     let perm = rng.perm(n);
+    let semantic = rng.bool();
+    let info = json!({"clauses": [clauses_json(&cls[0]), clauses_json(&cls[1])], "order": perm, "store": if semantic { "semantic64" } else { "standard" }});
     let mk_order = || VarOrder::new(&perm.iter().map(|x| VarLabel::new(*x as u64)).collect::<Vec<_>>());
-    let info = json!({"clauses": clauses_json(&cl), "order": perm});
-    let cnf = clauses_to_cnf(&cl);
-    let builder = StandardDecisionNNFBuilder::new(mk_order());
-    let b = &builder;
-    let root = b.compile_cnf_topdown(&cnf);
-    // a pool sharing structure: the root, its negation and conditionings of it
-    let mut pool: Vec<BddPtr> = vec![root, root.neg()];
-    for _ in 0..3 {
-        let v = rng.below(n);
-        pool.push(TopDownBuilder::condition(b, root, VarLabel::new(v as u64), rng.bool()));
+    let cnfs: Vec<rsdd::repr::Cnf> = cls.iter().map(clauses_to_cnf).collect();
+    if cnfs.iter().any(|c| c.num_vars() != n) {
+        return;
     }
     let nq = rng.range(15, 40);
-    let mut first: HashMap<String, String> = HashMap::new();
-    for qi in 0..nq {
-        let idx = rng.below(pool.len());
-        let q = gen_query(n, rng, 9);
-        if matches!(q, Q::CachedHash) {
-            continue;
+    let qs: Vec<(usize, Q)> = (0..nq).map(|_| (rng.below(7), gen_query(n, rng, 9))).filter(|(_, q)| !matches!(q, Q::CachedHash)).collect();
+    let conds: Vec<(usize, bool)> = (0..3).map(|_| (rng.below(n), rng.bool())).collect();
+    crate::caps::set_unique(Some(64));
+    if semantic {
+        let b = rsdd::builder::decision_nnf::SemanticDecisionNNFBuilder::<{ primes::U64_LARGEST }>::new(mk_order());
+        let f = rsdd::builder::decision_nnf::SemanticDecisionNNFBuilder::<{ primes::U64_LARGEST }>::new(mk_order());
+        crate::caps::reset();
+        ddnnf_body(ctx, &b, &f, &cnfs, n, &qs, &conds, &info);
+    } else {
+        let b = StandardDecisionNNFBuilder::new(mk_order());
+        let f = StandardDecisionNNFBuilder::new(mk_order());
+        crate::caps::reset();
+        ddnnf_body(ctx, &b, &f, &cnfs, n, &qs, &conds, &info);
+    }
+    ctx.case_eval(Some(crate::rng::hash_str(&info.to_string())));
+}
+
+#[allow(clippy::too_many_arguments)]
+fn ddnnf_body<'a, B: DecisionNNFBuilder<'a>>(
+    ctx: &mut Ctx,
+    b: &'a B,
+    fresh: &'a B,
+    cnfs: &[rsdd::repr::Cnf],
+    n: usize,
+    qs: &[(usize, Q)],
+    conds: &[(usize, bool)],
+    info: &Value,
+) {
+    let mk_pool = |bb: &'a B| -> Vec<BddPtr<'a>> {
+        let r0 = bb.compile_cnf_topdown(&cnfs[0]);
+        let r1 = bb.compile_cnf_topdown(&cnfs[1]);
+        let mut pool = vec![r0, r0.neg(), r1, r1.neg()];
+        for (v, val) in conds {
+            pool.push(TopDownBuilder::condition(bb, r0, VarLabel::new(*v as u64), *val));
         }
-        let a = ddnnf_answer(b, pool[idx], n, &q);
+        pool
+    };
+    let pool = mk_pool(b);
+    ctx.seen("ddnnf_stores", info["store"].as_str().unwrap_or("?"));
+    let mut first: HashMap<String, String> = HashMap::new();
+    let mut answers: Vec<String> = Vec::new();
+    for (qi, (idx, q)) in qs.iter().enumerate() {
+        let a = ddnnf_answer(b, pool[*idx], n, q);
         ctx.count("queries", 1);
         for (i, r) in pool.iter().enumerate() {
             for nd in bdd_nodes(*r) {
                 if !BddPtr::Reg(nd).is_scratch_cleared() {
                     ctx.violation("pure.ddnnf.scratch", "a d-DNNF scratch slot is not empty after a public call returned",
-                        json!({"query_index": qi, "query": format!("{:?}", q), "residue_under_pool_index": i, "input": info}));
+                        json!({"query_index": qi, "query": format!("{:?}", q), "on": idx, "residue_under_pool_index": i, "input": info}));
                     return;
                 }
             }
@@ -481,22 +521,28 @@ fn ddnnf_case(ctx: &mut Ctx, rng: &mut Rng) {
         } else {
             first.insert(key, a.clone());
         }
-        // fresh copy (only the root and its negation can be rebuilt identically)
-        if idx < 2 && qi % 2 == 0 {
-            let fresh = StandardDecisionNNFBuilder::new(mk_order());
-            let f = &fresh;
-            let r2 = f.compile_cnf_topdown(&cnf);
-            let p2 = if idx == 1 { r2.neg() } else { r2 };
-            let a2 = ddnnf_answer(f, p2, n, &q);
-            ctx.count("fresh_copy_queries", 1);
-            if a2 != a {
-                ctx.violation("pure.ddnnf.fresh", "answer differs from the answer on a freshly compiled copy",
-                    json!({"query": format!("{:?}", q), "long_lived": a, "fresh": a2, "input": info}));
-            }
+        answers.push(a);
+    }
+    // each of a few queries asked once, alone, on a freshly compiled copy
+    let pool2 = mk_pool(fresh);
+    let mut budget = 4;
+    for (qi, (idx, q)) in qs.iter().enumerate() {
+        if budget == 0 {
+            break;
+        }
+        if qi % 3 != 0 {
+            continue;
+        }
+        budget -= 1;
+        // a fresh copy per query would be the ideal; queries are pure, so asking a few on
+        // one fresh copy keeps the cost bounded while still differing from the long history
+        let a2 = ddnnf_answer(fresh, pool2[*idx], n, q);
+        ctx.count("fresh_copy_queries", 1);
+        if a2 != answers[qi] {
+            ctx.violation("pure.ddnnf.fresh", "answer differs from the answer on a freshly compiled copy",
+                json!({"query": format!("{:?}", q), "on": idx, "long_lived": answers[qi], "fresh": a2, "input": info}));
         }
     }
-    let _ = Tt::konst(1, true);
-    ctx.case_eval(Some(crate::rng::hash_str(&info.to_string())));
 }
 
 #[allow(dead_code)]
